@@ -417,15 +417,17 @@ Print Assumptions C17_nonutf8_path_witness.
 (* glob-regex-size-limit: the model takes Regex::new(..) to succeed.  The regex crate refuses
    a pattern whose compiled program exceeds 10 MiB (then glob_to_regex panics; with
    C17-invalid-glob-escape the pattern matches nothing instead).  The compiled size is NOT a
-   function of the number of characters: a literal costs 32 bytes per UTF-8 *byte* (first
-   failure at 327 675 bytes: 327 675 x 'a', 81 919 x U+1F600), a wildcard about 1 KiB (first
-   failures at 9 855 .. 10 878 wildcards, depending on the flags and the wildcard), and the
-   costs add up (5 000 wildcards + 200 000 literal bytes fail).  The recorded class is the
-   decidable over-approximation below (weights rounded up, bound rounded down); it is a
-   sufficient condition for "inside the measured safe region", not an exact description of
-   where the implementation fails.  Every theorem above holds for the model also inside the
-   class (the model has no such limit); what the theorems do not cover about the real code is
-   contained in this predicate, as far as the measurements in docs/cones/C17.md go. *)
+   function of the number of characters.  Measured on the real code: a literal costs 32 bytes
+   per UTF-8 *byte* (first failure at 327 675 bytes whatever the characters: 327 675 x 'a',
+   163 838 x U+00E9, 109 225 x U+4E2D, 81 919 x U+1F600), a wildcard between 964 and 1 064
+   bytes (first failures at 9 855 .. 10 878 wildcards, depending on the flags and the
+   wildcard), and the costs add up (100 000 x 'a' + 7 257 x '*', 200 000 x 'a' + 4 239 x '?',
+   300 000 x 'a' + 883 x '*' fail).  The recorded class is the decidable over-approximation
+   below (wildcard weight rounded up to 1 100, bound rounded down to 10^7).  It is NOT an exact
+   description of where the implementation fails: it contains that region as far as the linear
+   cost model above holds (which is a measurement, not a theorem), and also patterns the
+   implementation still handles.  Every theorem above holds for the model also inside the
+   class (the model has no such limit). *)
 Definition Known_glob_regex_size_limit (g : str) : Prop :=
   (10000000 <= 1100 * N.of_nat (List.length (filter (fun c => (c =? 42) || (c =? 63)) g))
                + 32 * utf8_size g)%N.
